@@ -25,6 +25,14 @@ def run(check: Check) -> None:
             check.obligation("required_variables/ground", "refuted" if found else "ground")
             for tag, msg in found:
                 check.violation(f"required::{tag}::{f}", msg, {"kind": "c17_formula", "formula": f})
+        gen = c17_native.generated(check.seed * 3 + 5, 400 if thorough else 60)
+        check.bounds["formulas_generated"] = len(gen)
+        for f, used in gen:
+            found = c17_native.check_generated(f, used)
+            check.case(f"generated:{f}")
+            check.obligation("required_variables.generated/ground", "refuted" if found else "ground")
+            for tag, msg in found:
+                check.violation(f"required::{tag}::generated", msg, {"kind": "c17_generated", "formula": f, "used": sorted(used)})
         found = c17_native.check_sources()
         check.obligation("sources/ground", "refuted" if found else "ground")
         for tag, msg in found:
